@@ -24,7 +24,9 @@ RECURSIVE Keep(_)
 Keep(s) == IF s = <<>> THEN <<>> ELSE (IF IsLogos(Head(s)) THEN <<>> ELSE <<Head(s)>>) \o Keep(Tail(s))
 
 (* sep: entries separated by ", " or by "," alone (a comma directly followed by `::` is lexed differently) *)
-Sources == [first : Lists, trailing : BOOLEAN, sep : {"spaced", "tight"}, second : {<<>>, <<"Debug">>, <<"Logos">>, <<"PartialEq", "Logos">>},
+(* eol: line endings of the source file; rustc reads a CRLF line break as \n also inside the multi-line     *)
+(*      string literal of the body, so the output must not depend on it                                      *)
+Sources == [first : Lists, trailing : BOOLEAN, sep : {"spaced", "tight"}, eol : {"lf", "crlf"}, second : {<<>>, <<"Debug">>, <<"Logos">>, <<"PartialEq", "Logos">>},
             extras : {"none", "doc_repr_before", "cfg_attr_after", "allow_between"},
             nlogos : 0..2]
 
@@ -49,7 +51,7 @@ Apply(op, f) ==
     [] op = "delete" -> [exit |-> 0, file |-> "absent"]
 
 Init == \/ (mode = "strip" /\ src \in Sources /\ file = "absent" /\ hist = <<>>)
-        \/ (mode = "files" /\ src = [first |-> <<"Debug", "Logos">>, trailing |-> FALSE, sep |-> "spaced", second |-> <<>>, extras |-> "none", nlogos |-> 1]
+        \/ (mode = "files" /\ src = [first |-> <<"Debug", "Logos">>, trailing |-> FALSE, sep |-> "spaced", eol |-> "lf", second |-> <<>>, extras |-> "none", nlogos |-> 1]
             /\ file = "absent" /\ hist = <<>>)
 
 Step(op) == /\ mode = "files" /\ Len(hist) < MaxOps
